@@ -15,7 +15,7 @@ func runC12NewCells(x *X) {
 	keys := []interface{}{pkey("k1"), pkey("k2")}
 	keyNames := []string{"k1", "k2"}
 	depth := x.Pick(5, 6)
-	x.Explore("new-cells-start-empty", ExploreOpts{ShardDepth: 2, Bound: fmt.Sprintf("table header(t,u) + row(t,u); all sequences of <=%d operations {set k1/k2 on the last row's first/second cell or on the last row itself (separators too), AddRowItems(t,u) again, AddRowItems(u,t), AddRowItems(other), AddSeparator, AppendNewRow+Add(t), AddHeaders(t,u) again, render pass}; every cell read for both keys after each step", depth)}, func(c *Chooser) {
+	x.Explore("new-cells-start-empty", ExploreOpts{ShardDepth: 2, Bound: fmt.Sprintf("table header(t,u) + row(t,u); all sequences of <=%d operations {set k1/k2 on the last row's first/second cell or on the last row itself (separators too), AddRowItems(t,u) again, AddRowItems(u,t), AddRowItems(other), AddSeparator, AppendNewRow+Add(t), AddHeaders(t,u) again, render pass, Update() on a cell}; every cell read for both keys after each step", depth)}, func(c *Chooser) {
 		t := tabular.New()
 		t.AddHeaders("t", "u")
 		t.AddRowItems("t", "u")
@@ -85,7 +85,7 @@ func runC12NewCells(x *X) {
 		var ops []string
 		sets := 0
 		for step := 0; step < depth; step++ {
-			k := c.Choose(13)
+			k := c.Choose(14)
 			if k == 0 {
 				break
 			}
@@ -104,6 +104,15 @@ func runC12NewCells(x *X) {
 				name = fmt.Sprintf("%s.SetProperty(%s, %s)", row[ci].name, keyNames[ki], v)
 				row[ci].get().SetProperty(keys[ki], v)
 				row[ci].model[keys[ki]] = v
+			case 13:
+				// Update() re-reads the cell's item; it has nothing to do with the cell's properties
+				row := lastCellRow()
+				if len(row) == 0 {
+					name = "(no cell to update)"
+					break
+				}
+				name = row[0].name + ".Update()"
+				row[0].get().(*tabular.Cell).Update()
 			case 11, 12:
 				// a property on the last row of the table, whatever it is (a separator, too)
 				rr := t.AllRows()
